@@ -140,6 +140,7 @@ impl Prop for C16 {
                     inputs: vec![input],
                     outputs,
                     locktime: 0,
+                    cs_width: 0,
                 });
             }
             scn.chain.push(BlockDesc {
